@@ -233,6 +233,35 @@ func runC09(c *rt.Ctx) {
 	}
 	c.Require("local-zone-sweep", int64(len(hostileZones())))
 
+	// the leap rule for every year, not for samples (limit disabled): Feb 28/29/30 of every year 0..1,000,000 in
+	// both layouts, and Feb 29 of every century year up to 999,999,900
+	date.MaxInputLength = 0
+	c.Parallel("leap-rule-every-year", 0, func(w *rt.W) {
+		for y := int64(w.Shard); y <= 1000000; y += int64(w.NShards) {
+			all := y%100 == 0 || y < 12000
+			for _, t := range []string{fmt.Sprintf("%04d-02-29", y), fmt.Sprintf("%04d0229", y), fmt.Sprintf("%04d-02-28", y), fmt.Sprintf("%04d-02-30", y)} {
+				if c09Case(w, t, 0, all) == c09RejNonexistent && t[len(t)-1] == '9' {
+					w.ClassN("every-year-feb-29-of-common-year", 1)
+				}
+			}
+		}
+		for y := int64(1000000) + 100*int64(w.Shard); y <= 999999900; y += 100 * int64(w.NShards) {
+			if c09Case(w, fmt.Sprintf("%d-02-29", y), 0, false) == c09RejNonexistent {
+				w.ClassN("century-feb-29-of-common-year", 1)
+			} else {
+				w.ClassN("century-feb-29-of-leap-year", 1)
+			}
+			if y%1600 == 0 {
+				c09Case(w, fmt.Sprintf("%d0229", y+100), 0, true)
+			}
+		}
+		w.NT(1)
+	})
+	c.Exhaustive("Feb 28/29/30 of every year 0..1,000,000 (both layouts) and Feb 29 of every multiple of 100 up to 999,999,900, MaxInputLength 0")
+	c.Require("every-year-feb-29-of-common-year", 1500000)
+	c.Require("century-feb-29-of-common-year", 7000000)
+	c.Require("century-feb-29-of-leap-year", 2000000)
+
 	// call histories: years that agree in their low bits / low digits but differ in leap status, parsed
 	// back to back (anything remembered between calls under a truncated key shows up here)
 	date.MaxInputLength = 0
